@@ -163,6 +163,17 @@ def run_case(ctx, alg, kind, path, how, form, verify_with, placement, extras, pn
             h2, p2 = rjws.verify_json(token, exported)
         if p2 != payload:
             vs.append(viol(f"reference recovers a different payload: {tag}", f"{p2[:40]!r}"))
+        # what is on the wire is what was asked for, in the position it was asked for (the kid of a key picked from a set may be added)
+        if not isinstance(token, str):
+            for m in (token["signatures"] if "signatures" in token else [token]):
+                wp = json.loads(b64.dec(m["protected"])) if "protected" in m else {}
+                wh = m.get("header") or {}
+                if set(wp) & set(wh):
+                    vs.append(viol(f"independent verifier: the protected and the unprotected header of joserfc's token share member names: {tag}", f"{ctxs}: {sorted(set(wp) & set(wh))} (RFC 7515 7.2.1)"))
+                if {k: v for k, v in wp.items() if k != "kid" or k in (given_prot or {})} != (given_prot or {}):
+                    vs.append(viol(f"independent verifier reads a protected header other than the one given: {tag}", f"{ctxs}: given {given_prot}, on the wire {wp}"))
+                if {k: v for k, v in wh.items() if k != "kid" or k in (given_hdr or {})} != (given_hdr or {}):
+                    vs.append(viol(f"independent verifier reads an unprotected header other than the one given: {tag}", f"{ctxs}: given {given_hdr}, on the wire {wh}"))
     except (RefError, ValueError, KeyError) as e:
         vs.append(viol(f"independent verifier rejects joserfc's token: {tag}", f"{ctxs}: {e!r} token={str(token)[:300]}"))
     # ---- the token as it comes off the wire: text, octets, or a receive buffer
@@ -286,18 +297,22 @@ def h_multi_signer(ctx):
     # each member names alg and kid in the protected header, splits them, or has no protected header at all (RFC 7520 4.8) - in every order
     kinds = ctx.choose("member_kinds", list(itertools.product(["protected", "split", "unprotected-only"], repeat=n)))
     kid_pos = "/".join(kinds)
+    # the signers are told apart by kid - or, for an application that resolves keys itself, by another member (no kid at all, or one kid for the team)
+    apart = ctx.choose("signers_told_apart_by", ["kid", "x5t, no kid", "x5t, one shared kid"] if supplied == "callable returning a key per member" else ["kid"])
+    kid_pos += "" if apart == "kid" else f" [{apart}]"
     pname, payload = ctx.choose("payload", payloads()[:5] if all(k == "protected" for k in kinds) else payloads()[3:5])
     members, privs, pubs, jwks = [], [], [], []
     for j, i in enumerate(combo):
         alg, kind = SIGNERS[i]
         jwk = scen.key(kind, j)
         kid = f"signer-{j}"
+        who = {"kid": kid} if apart == "kid" else ({"x5t": kid} if apart == "x5t, no kid" else {"kid": "team", "x5t": kid})
         if kinds[j] == "protected":
-            hdr_p, hdr_u = {"alg": alg, "kid": kid}, None
+            hdr_p, hdr_u = {"alg": alg, **who}, None
         elif kinds[j] == "split":
-            hdr_p, hdr_u = {"alg": alg}, {"kid": kid}
+            hdr_p, hdr_u = {"alg": alg}, dict(who)
         else:
-            hdr_p, hdr_u = None, {"alg": alg, "kid": kid}
+            hdr_p, hdr_u = None, {"alg": alg, **who}
         members.append({**({"protected": hdr_p} if hdr_p else {}), **({"header": hdr_u} if hdr_u else {})})
         privs.append(A.jkey({**jwk, "kid": kid}, "dict"))
         pubs.append(A.jkey({**(jwk if jwk["kty"] == "oct" else rjwk.public_of(jwk)), "kid": kid}, "dict"))
@@ -310,7 +325,7 @@ def h_multi_signer(ctx):
             return ks
         if supplied == "callable returning the key set":
             return lambda obj: ks
-        return lambda obj: next(k for k in keys if k.kid == obj.headers().get("kid"))
+        return lambda obj: next(k for k in keys if k.kid == (obj.headers().get("x5t") or obj.headers().get("kid")))
     given = copy.deepcopy(members)
     r = call(jws.serialize_json, members, payload, arg(privs), algorithms=algs)
     vs = []
